@@ -19,6 +19,9 @@
 //!   pywords  Python `get_compressed()`        pydecoded  Python `decode(..)`
 //!   chain:   pyprefix, pysuffix = `get_remainders()`; pyrecprefix, pyrecsuffix =
 //!            `get_data(unseal=True)` after `encode_reverse` of the decoded symbols
+//!   lay_*    memory layouts in which the Python side passed its numpy arrays (reversed / strided
+//!            views, F-ordered matrices, …): informative only — all arrays above are the *logical*
+//!            contents, so the words computed here are what any layout must produce
 //!
 //! Which Rust constructors correspond to which Python call was read off
 //! `/repo/src/pybindings/stream/model.rs` and `model/internals.rs` (see `build_one`).
